@@ -182,6 +182,7 @@ def solve(binary, unwind, timeout, mem_gb, trace=True, slice_formula=True, fs=No
         r["why"] = "no result section in CBMC output: " + " | ".join(msgs[-3:])[:400]
         return r
     failing, unwind_fail, unsupported = [], [], []
+    failing_props = []
     first_trace = None
     for p in results:
         name, desc, st = p.get("property", ""), p.get("description", ""), p.get("status", "")
@@ -202,6 +203,7 @@ def solve(binary, unwind, timeout, mem_gb, trace=True, slice_formula=True, fs=No
                 unsupported.append(desc)
             else:
                 failing.append(desc)
+                failing_props.append(name)
                 if first_trace is None and p.get("trace"):
                     first_trace = p["trace"]
     if unwind_fail or unsupported:
@@ -211,10 +213,83 @@ def solve(binary, unwind, timeout, mem_gb, trace=True, slice_formula=True, fs=No
     if failing:
         r["status"] = "failed"
         r["failed_checks"] = sorted(set(failing))
+        r["failed_props"] = failing_props
         r["values"] = extract_values(first_trace) if first_trace else None
     else:
         r["status"] = "success"
     return r
+
+
+_STR_RE = re.compile(r'"(?:\\.|[^"\\])*"')
+
+
+def solve_for_values(binary, unwind, timeout, mem_gb, fs=None, prop=None):
+    """Re-solve a failing harness without formula slicing and with --trace, streaming CBMC's (potentially
+    multi-GB) JSON trace from a file: only the assignments made inside kani::any_raw_* are kept.
+    Returns the list of byte lists of the first failing property's trace, or None."""
+    flags = [f for f in CBMC_FLAGS if f != "--slice-formula"]
+    if fs is not None:
+        i = flags.index("--max-field-sensitivity-array-size")
+        flags[i + 1] = str(fs)
+    cmd = [CBMC] + flags + ["--unwind", str(unwind), binary, "--json-ui", "--trace", "--stop-on-fail"]
+    if prop:
+        # only the property that failed: cover properties and Kani's reachability companions also "fail"
+        # (that is how they report reachability) and would otherwise be what --stop-on-fail stops at
+        cmd += ["--property", prop]
+    tmp = binary + ".trace.json"
+
+    def pre():
+        if mem_gb:
+            lim = int(mem_gb * (1 << 30))
+            resource.setrlimit(resource.RLIMIT_AS, (lim, lim))
+    try:
+        with open(tmp, "w") as f:
+            subprocess.run(cmd, stdout=f, stderr=subprocess.DEVNULL, timeout=timeout, preexec_fn=pre)
+    except subprocess.TimeoutExpired:
+        try:
+            os.remove(tmp)
+        except OSError:
+            pass
+        return None
+    vals = []
+    in_trace = False
+    depth = 0
+    cur = []
+    step_depth = None
+    try:
+        with open(tmp, errors="replace") as f:
+            for line in f:
+                if not in_trace:
+                    if '"trace": [' in line:
+                        in_trace = True
+                        depth = 0
+                        cur = []
+                    continue
+                stripped = _STR_RE.sub('""', line)
+                opens = stripped.count("{")
+                closes = stripped.count("}")
+                if depth == 0 and opens == 0:
+                    if "]" in stripped:
+                        break  # end of the (first) trace
+                    continue
+                cur.append(line)
+                depth += opens - closes
+                if depth == 0:
+                    text = "".join(cur).rstrip().rstrip(",")
+                    cur = []
+                    if '"assignment"' in text and "any_raw" in text:
+                        try:
+                            st = json.loads(text)
+                        except Exception:
+                            continue
+                        v = extract_values([st])
+                        vals.extend(v)
+    finally:
+        try:
+            os.remove(tmp)
+        except OSError:
+            pass
+    return vals if in_trace else None
 
 
 def extract_values(trace):
